@@ -108,7 +108,7 @@ class PythonParserGenerator(IndentPrintMixin, NodeWalker):
             if isinstance(p, int | float):
                 return str(p)
             elif isinstance(p, str):
-                return repr(p.split('::')[0])
+                return repr(p)
             else:
                 return repr(p)
 
